@@ -755,6 +755,15 @@ class Ana:
                     return r
         return "?"
 
+    def is_slot(self, recv):
+        """does the expression address the result slot: it mentions the slot's type (`Option<T>` behind the block's value
+        offset) or goes through a function of the file that does"""
+        if "Option<" in recv or "value_offset" in recv:
+            return True
+        slot_fns = {f.name for f in self.F.fns if f.owner == "Tsm" and ("Option<" in f.ret or "Option<" in compact(f.body) or "value_offset" in compact(f.body))
+                    and "alloc(" not in compact(f.body)}
+        return any(c in slot_fns for c in re.findall(r"\.(\w+)(?:::<[^()]*>)?\(\)", recv))
+
     # ---- operations of a straight-line piece of code, in textual (= evaluation) order
     def text_ops(self, toks):
         s = compact(toks)
@@ -800,7 +809,8 @@ class Ana:
             loc = self.loc_of(recv)
             site = {"fn": self.name, "op": op, "loc": loc, "vals": vals, "ords": ords}
             self.sites.append(site)
-            add(m, "cas" if op.startswith("compare_exchange") else ("load" if op == "load" else "atomic?"), site)
+            handover = op.startswith("compare_exchange") or (op in ("swap", "fetch_or") and vals == ["true"] and loc == "sync")
+            add(m, "cas" if handover else ("load" if op == "load" else "atomic?"), site)
         for m in re.finditer(r"(?<![\w.])futex_wait_fast\(", s):
             args = split_args(s[m.end():close_paren(s, m.end() - 1)])
             site = {"fn": self.name, "op": "futex_wait_fast", "loc": self.loc_of(args[0]) if args else "?", "vals": args[1:], "ords": []}
@@ -830,9 +840,11 @@ class Ana:
         for m in re.finditer(r"Box::new\(\(?(?:(\w+)\)?\)|(?:move)?\|)", s):
             if m.group(1) is None or m.group(1) in self.closure_names:
                 add(m, "box_closure")
-        for m in re.finditer(r"Box::from_raw\((\w+)\)", s):
+        for m in re.finditer(r"Box::from_raw\((\w+(?:\(\))?(?:\.cast(?:::<[\w:]+>)?\(\))?)\)", s):
             if self.resolves_to(m.group(1), r"ThreadLocalStorage\{"):
                 add(m, "drop_tls")
+            elif self.resolves_to(m.group(1), r"get_tls_ptr\(\)"):
+                add(m, "tls_dealloc")       # the thread's own block, re-boxed and dropped
         split_names = set()
         for names, init in self.tuples:
             if re.search(r"Box::into_raw\(Box::new\(", init) or "onwed_split_fn_once" in init:
@@ -847,7 +859,7 @@ class Ana:
             add(m, "ret_err")
         for m in re.finditer(r"\.read\(\)", s):
             recv = s[expr_start(s, m.start()):m.start()]
-            if "value_offset" in recv or "value_mut" in recv:
+            if self.is_slot(recv):
                 add(m, "read_slot")
             elif self.resolves_to(recv, r"get_tls_ptr\(\)") or "get_tls_ptr()" in recv:
                 add(m, "tls_read")
@@ -891,7 +903,9 @@ class Ana:
         else:
             cas_err = r"\.compare_exchange(_weak)?\(.*\)\.is_err\(\)$|^matches!\(.*\.compare_exchange(_weak)?\(.*\),Err\(_\)\)$"
             cas_ok = r"\.compare_exchange(_weak)?\(.*\)\.is_ok\(\)$|^matches!\(.*\.compare_exchange(_weak)?\(.*\),Ok\(_\)\)$"
-            if self.resolves_to(c, cas_err):
+            # `swap(true)` / `fetch_or(true)` return the previous value: true = the other side was first
+            rmw_old = r"\.(swap|fetch_or)\(true,[\w:]+\)$"
+            if self.resolves_to(c, cas_err) or self.resolves_to(c, rmw_old):
                 r = ("cas_lost", "cas_won")
             elif self.resolves_to(c, cas_ok):
                 r = ("cas_won", "cas_lost")
@@ -1502,7 +1516,8 @@ def isrel(o):
 
 def good_cas(x):
     o = (x["ords"] + ["relaxed"])[0]
-    return x["op"] == "compare_exchange" and x["loc"] == "sync" and x["vals"] == ["false", "true"] and isacq(o) and isrel(o)
+    return (((x["op"] == "compare_exchange" and x["vals"] == ["false", "true"]) or (x["op"] in ("swap", "fetch_or") and x["vals"] == ["true"]))
+            and x["loc"] == "sync" and isacq(o) and isrel(o))
 
 
 def good_wait_site(x):
